@@ -3,7 +3,7 @@
    This file only closes statements with proved lemmas; the instance theorems are concrete histories
    (with the observations the implementation produced for them) re-evaluated inside Coq. *)
 From Coq Require Import List NArith.
-From Proto Require Import Broker Script ProofsBasic ProofsInstances.
+From Proto Require Import Broker Script ProofsBasic ProofsInstances Props ProofsSub.
 Import ListNotations.
 Open Scope N_scope.
 
@@ -14,3 +14,13 @@ Print Assumptions C07_instance_c07_rejected_filter.
 Theorem C07_instance_c07_unsubscribe_five : run_broker [262144] h_c07_unsubscribe_five = o_c07_unsubscribe_five.
 Proof. exact ProofsInstances.inst_c07_unsubscribe_five. Qed.
 Print Assumptions C07_instance_c07_unsubscribe_five.
+
+(* SUBACK: same identifier, one code per filter, each the granted QoS or 0x80 *)
+Theorem C07_suback : Props.C07_suback.
+Proof. exact ProofsSub.suback. Qed.
+Print Assumptions C07_suback.
+
+(* UNSUBACK: same identifier, the filters are gone before it is written *)
+Theorem C07_unsuback : Props.C07_unsuback.
+Proof. exact ProofsSub.unsuback. Qed.
+Print Assumptions C07_unsuback.
